@@ -36,14 +36,14 @@ Section Sign.
       length (r_signatureRSV res) = 65%nat.
   Proof.
     unfold SignTypedDataV4. intros Hs.
-    destruct (EncodeTypedDataV4 H big_other payload) as [d| |] eqn:Ed; simpl in Hs; try discriminate.
+    destruct (EncodeTypedDataV4 H big_other payload) as [d| |] eqn:Ed; cbn [bind] in Hs; try discriminate.
     destruct (sign_direct d) as [[[R S] V]|] eqn:Es; try discriminate.
-    destruct (fill_bytes 32 R) as [rb| |] eqn:ER; simpl in Hs; try discriminate.
-    destruct (fill_bytes 32 S) as [sb| |] eqn:ES; simpl in Hs; try discriminate.
-    injection Hs as <-. simpl.
+    destruct (fill_bytes 32 R) as [rb| |] eqn:ER; cbn [bind] in Hs; try discriminate.
+    destruct (fill_bytes 32 S) as [sb| |] eqn:ES; cbn [bind] in Hs; try discriminate.
+    injection Hs as <-. cbn [r_hash r_R r_S r_V r_signatureRSV].
     apply fill_bytes_ok in ER as (-> & LR & _). apply fill_bytes_ok in ES as (-> & LS & _).
     exists d, R, S, V. repeat split; auto.
-    rewrite !app_length, !be_fixedZ_length. reflexivity.
+    all: try (rewrite !app_length, !be_fixedZ_length; reflexivity).
   Qed.
 
   (* with a signer that returns V in {27,28} (the convention of secp256k1.KeyPair.SignDirect) the
